@@ -172,6 +172,10 @@ def extra_checks(tier, seed):
     out.append(async_flat_stream(tier, seed))
     out.append(async_hsm_stream(tier, seed))
     out.append(may_from_callbacks_stream(tier, seed))
+    # machines reconfigured (add_transition) between may_ calls: the answer follows the machine as it is now
+    import c01
+    name, ok, detail, rep = c01.late_transitions_stream(tier, seed, may=True, tag='C12l')
+    out.append(('may_after_transitions_were_added', ok, detail, rep))
     return out
 
 
